@@ -335,6 +335,10 @@ def run(cx):
         st = enclosing_stmt(call)
         later = blk[blk.index(st) + 1:] if st in blk else []
         ok = any(isinstance(s, ast.Assign) and norm(s.value) == norm(call.args[3]) for s in later)
+        if not ok and isinstance(call.args[3], ast.Name):
+            # the end position may be built directly in the carried variable (the one the end-of-input token is made of)
+            carried = {norm(x[0].args[2]) for x in seen.values() if not x[4] and norm(x[0].args[2]) == norm(x[0].args[3])}
+            ok = call.args[3].id in carried and not any(call.args[3].id in {t.id for t in ast.walk(s_) if isinstance(t, ast.Name) and isinstance(t.ctx, ast.Store)} for s_ in later)
         cx.ob("R04a", call, ok, "the end position is remembered for the next token" if ok else "the emitted token's end is not recorded as the previous end", stmt=norm(call)[:60] + " [carry]")
 
     # ---------------- R04e
